@@ -42,6 +42,28 @@ macro_rules! rank_space {
     };
 }
 
+/// Same with a concrete fill (Select9::new has loops driven by the contents).
+macro_rules! space_concrete {
+    ($name:ident, $NW:expr, $LEN:expr, $fill:expr, $build:expr, $num:expr, $den:expr, $slack:expr) => {
+        #[kani::proof]
+        #[kani::unwind(140)]
+        pub fn $name() {
+            const NW: usize = $NW;
+            const LEN: usize = $LEN;
+            let words = [$fill; NW];
+            let bits = unsafe { BitVec::from_raw_parts(words, LEN) };
+            let base = sz(&bits);
+            let r = ($build)(bits);
+            let total = sz(&r);
+            assert!(total >= base);
+            let overhead = total - base;
+            assert!(overhead * 8 * $den <= $num * LEN + $slack * 8 * $den, "space overhead above the documented fraction");
+            kani::cover!(true);
+            std::mem::forget(r);
+        }
+    };
+}
+
 type Bv<const N: usize> = BitVec<[usize; N]>;
 
 pub mod q {
@@ -176,8 +198,9 @@ pub mod t {
     rank_space!(rs4_len8192, 128, 8192, |b: Bv<128>| RankSmall::<3, 13, _, _, _>::new(b), 15625, 1000000, 96);
     // Select9 over Rank9: at most a further 37.5% (concrete contents: the
     // data-dependent loops of Select9::new fold)
-    rank_space!(select9_len4096, 64, 4096, |b: Bv<64>| Select9::new(Rank9::new(b)), 625, 1000, 200);
-    rank_space!(select9_len1, 1, 1, |b: Bv<1>| Select9::new(Rank9::new(b)), 625, 1000, 200);
+    space_concrete!(select9_zeros_len512, 8, 512, 0usize, |b: Bv<8>| Select9::new(Rank9::new(b)), 625, 1000, 200);
+    space_concrete!(select9_ones_len1024, 16, 1024, !0usize, |b: Bv<16>| Select9::new(Rank9::new(b)), 625, 1000, 200);
+    space_concrete!(select9_ones_len512, 8, 512, !0usize, |b: Bv<8>| Select9::new(Rank9::new(b)), 625, 1000, 200);
 
     pub mod ef {
         use super::super::*;
